@@ -8,7 +8,7 @@
         b_st b_lo b_hi b_cdflo b_cdfhi b_hafter
         nquad { a b integral cdf_a cdf_b }*
         m_st m_a m_b m_integral
-        unmodified
+        unmodified sorted
 
      kernel     0 Epanechnikov, 1 Gaussian, 2 Delta                      (KDE.Kernel)
      hasw       1 when Sample.Weights is non-nil ([ws] is the empty list otherwise)
@@ -29,6 +29,7 @@
      m_st ...   total mass: status (0 present, 3 absent), the interval [m_a, m_b] (f) and the
                 quadrature of the implementation's PDF over it (f)
      unmodified 1 when Sample.Xs / Sample.Weights are bit-for-bit what they were before
+     sorted     1 when Sample.Sorted was set (only on ascending Xs): must not change any result
 
    WHAT IS COMPARED
      Epanechnikov and delta kernels: PDF and CDF against the exact model (abs 1e-9 * peak kernel
@@ -41,8 +42,13 @@
      Gaussian VALUES are not compared here (no exp/erfc in Q): they are the subject of the M2
      certificates of bin/plugins/C12.py (group gH), which reads the same line.
      Bandwidth: non-zero h is never changed; h = 0 is replaced at the first call by a value b
-     with b^10 = (1.06*min(s, IQR/1.349))^10 / n^2 (relative 1e-8 on the 10th power) and never
-     changes afterwards; the model then runs with the bandwidth the code stored.
+     with b^10 = (1.06*min(s, IQR/1.349))^10 / n^2 and never changes afterwards; the model then
+     runs with the bandwidth the code stored.  Tolerance of the rules: "to within rounding" of
+     the variance (1e-9 relative + the rounding of Welford's loop on data of magnitude maxabs and
+     range r: (4n+64) ulp maxabs r, the tolerance of C09) and of the quartiles (C10's tolerance),
+     carried through the monotone map s2 -> 1.06^10 s2^5 / n^2, plus 1e-8 relative on the 10th
+     power (= 1e-9 on the bandwidth).  For data whose offset is up to 1e9 spreads this stays far
+     below the error of a cancelling variance formula.
      Bounds(): finite, low <= high, inside the boundaries, CDF(high) - CDF(low) >= 0.98 with the
      exact model CDF (Gaussian: with the implementation's own CDF values; delta kernel: the
      weight of the data points in the closed interval [low, high]). *)
@@ -57,7 +63,7 @@ Record cline := mkLine {
   l_kernel : Z; l_hasw : bool; l_xs : list Q; l_ws : list Q; l_h : Q; l_bmin : xreal; l_bmax : xreal;
   l_scst : Z; l_sc : xreal; l_sist : Z; l_si : xreal;
   l_pts : list pt; l_bnds : bnds; l_quads : list quad;
-  l_mst : Z; l_ma : xreal; l_mb : xreal; l_mint : xreal; l_unmod : Z }.
+  l_mst : Z; l_ma : xreal; l_mb : xreal; l_mint : xreal; l_unmod : Z; l_sorted : bool }.
 
 Definition p_pt : parser pt :=
   do x <- pQ; do ps <- pZ; do pv <- pX; do cs <- pZ; do cv <- pX; do h <- pX; pret (mkPt x ps pv cs cv h).
@@ -72,8 +78,8 @@ Definition p_line : parser cline :=
   do h <- pQ; do bmin <- pX; do bmax <- pX;
   do scst <- pZ; do sc <- pX; do sist <- pZ; do si <- pX;
   do pts <- plist_any p_pt; do bn <- p_bnds; do qs <- plist_any p_quad;
-  do mst <- pZ; do ma <- pX; do mb <- pX; do mi <- pX; do unm <- pZ;
-  pend (mkLine kern hasw xs ws h bmin bmax scst sc sist si pts bn qs mst ma mb mi unm).
+  do mst <- pZ; do ma <- pX; do mb <- pX; do mi <- pX; do unm <- pZ; do srt <- pbool;
+  pend (mkLine kern hasw xs ws h bmin bmax scst sc sist si pts bn qs mst ma mb mi unm srt).
 
 (* ---------- tolerances ---------- *)
 Definition e9 : Q := 1 # 1000000000.
@@ -99,7 +105,9 @@ Definition T_QUAD := 32768%Z.
 Definition T_INF := 65536%Z.  (* delta kernel: PDF = +Inf *)
 Definition T_EMPTY := 131072%Z.
 Definition T_BWRULE := 262144%Z. (* a bandwidth rule returned a value that was compared *)
-Definition T_BORDER := 524288%Z. (* delta kernel, inexact image arithmetic within rounding of a jump: either side accepted *)
+Definition T_BORDER := 524288%Z.
+Definition T_SORTED := 1048576%Z. (* Sample.Sorted set *)
+Definition T_OFFSET := 2097152%Z. (* bandwidth rule compared on data whose offset is >= 1e4 ranges *) (* delta kernel, inexact image arithmetic within rounding of a jump: either side accepted *)
 
 (* ---------- observable classes (first diagnostic integer of a mismatch) ---------- *)
 Definition D_PDF := 1%Z.    Definition D_CDF := 2%Z.     Definition D_HAFTER := 3%Z.
@@ -120,15 +128,44 @@ Definition xdiag (x : option xreal) : list Z :=
   end.
 
 (* ---------- bandwidth rules ---------- *)
-(* obs ~ v^(1/10):  |obs^10 - v| <= 1e-8 * v  (obs >= 0); v = 0 is exact *)
-Definition bw_ok (r : bwres) (st : Z) (obs : xreal) : bool :=
+Definition bq_range (xs : list Q) : Q := match xs with [] => 0 | x :: _ => Qlmax x xs - Qlmin x xs end.
+(* rounding of the variance (Welford's loop): the tolerance of Check/C09.v *)
+Definition tol_var12 (xs : list Q) (v : Q) : Q :=
+  e9 * v + (4 * Qofnat (length xs) + 64) * ulp53 * Qmaxabs xs * bq_range xs.
+(* rounding of IQR = Quantile(0.75) - Quantile(0.25): the tolerance of Check/C10.v *)
+Definition tol_iqr12 (xs : list Q) : Q :=
+  2 * ((8 * Qofnat (length xs) + 16) * ulp53 * bq_range xs + 16 * ulp53 * Qmaxabs xs) + 4 * ulp53 * Qmaxabs xs.
+Definition Qmax0 (a : Q) : Q := if Qle_bool 0 a then a else 0.
+
+(* the interval [lo, hi] of squared scale estimates s2 the float code may legitimately have
+   worked with; None = the rule is not defined (NaN / panic: compared by status) *)
+Definition silverman_s2 (s : sample) : option (Q * Q) :=
+  match s_ws s, kvariance (s_xs s) with
+  | None, Some v => let t := tol_var12 (s_xs s) v in Some (Qmax0 (v - t), v + t)
+  | _, _ => None
+  end.
+Definition scott_s2 (s : sample) : option (Q * Q) :=
+  match s_ws s, quantile s (3 # 4), quantile s (1 # 4), kvariance (s_xs s) with
+  | None, RVal a, RVal b, Some v =>
+      let t := tol_var12 (s_xs s) v in
+      let r := (a - b) / c1349 in
+      let d := tol_iqr12 (s_xs s) / c1349 in
+      let rlo := Qmax0 (r - d) in let rhi := Qmax0 (r + d) in
+      Some (Qminb (Qmax0 (v - t)) (rlo * rlo), Qminb (v + t) (rhi * rhi))
+  | _, _, _, _ => None
+  end.
+
+(* obs ~ (1.06^10 s2^5 / n^2)^(1/10) for some s2 in [lo, hi]; 1e-8 relative on the 10th power *)
+Definition bw_ok (r : bwres) (iv : option (Q * Q)) (n : Q) (st : Z) (obs : xreal) : bool :=
   match r with
   | BwPanic => (st =? 2)%Z
   | BwNaN => (st =? 0)%Z && is_nan obs
-  | BwPow10 v => (st =? 0)%Z &&
-      match obs with
-      | XFin o => Qle_bool 0 o && within (e8 * v) v (qpow o 10)
-      | _ => false
+  | BwPow10 _ => (st =? 0)%Z &&
+      match obs, iv with
+      | XFin o, Some (lo, hi) =>
+          let p := qpow o 10 in
+          Qle_bool 0 o && Qle_bool (bw10 lo n * (1 - e8)) p && Qle_bool p (bw10 hi n * (1 + e8))
+      | _, _ => false
       end
   end.
 
@@ -315,25 +352,28 @@ Definition check_C12 (line : list Z) : list Z :=
       then verdict V_MALFORMED 0 (-1) [] else
       if Qltb (l_h l) 0 then verdict V_MALFORMED 0 (-1) [] else
       let ws := if l_hasw l then Some (l_ws l) else None in
-      let s := mkSample (l_xs l) ws false in
+      let s := mkSample (l_xs l) ws (l_sorted l) in
+      let nq12 := Qofnat (length (l_xs l)) in
       let b := bconf_of (l_bmin l) (l_bmax l) in
       let base := Z.lor (kern_tag kern) (Z.lor (conf_tag b) (Z.lor (if l_hasw l then T_WEIGHTED else 0)
-                    (match l_xs l with [] => T_EMPTY | _ => 0 end)))%Z in
+                    (Z.lor (if l_sorted l then T_SORTED else 0) (match l_xs l with [] => T_EMPTY | _ => 0 end))))%Z in
       (* 1. the bandwidth rules *)
       let sc := bandwidth_scott10 s in
       let si := bandwidth_silverman10 s in
-      if negb (bw_ok sc (l_scst l) (l_sc l)) then
+      if negb (bw_ok sc (scott_s2 s) nq12 (l_scst l) (l_sc l)) then
         verdict V_MISMATCH T_BWRULE (-20) (D_SCOTT :: match sc with BwPow10 v => qdiag v | _ => [] end) else
-      if negb (bw_ok si (l_sist l) (l_si l)) then
+      if negb (bw_ok si (silverman_s2 s) nq12 (l_sist l) (l_si l)) then
         verdict V_MISMATCH T_BWRULE (-21) (D_SILVER :: match si with BwPow10 v => qdiag v | _ => [] end) else
-      let bwtag := match sc with BwPow10 _ => T_BWRULE | _ => 0%Z end in
+      let bwtag := match sc with
+                   | BwPow10 _ => Z.lor T_BWRULE (if Qle_bool (10000 * bq_range (l_xs l)) (Qmaxabs (l_xs l)) && Qltb 0 (bq_range (l_xs l)) then T_OFFSET else 0)
+                   | _ => 0%Z end in
       (* 2. the bandwidth the calls work with, and the value the field must hold after each call *)
       let lazy := Qeq_bool (l_h l) 0 in
       let panics := lazy && match sc with BwPanic => true | _ => false end in
       let hfirst := match l_pts l with p :: _ => p_h p | [] => b_h (l_bnds l) end in
       let hexp : xreal := if lazy then (if panics then XFin 0 else hfirst) else XFin (l_h l) in
       (* lazy: the stored value is Scott's (10th powers); bw_ok on the stored value *)
-      if lazy && negb panics && negb (match l_pts l, b_st (l_bnds l) with [], 3%Z => true | _, _ => bw_ok sc 0 hexp end) then
+      if lazy && negb panics && negb (match l_pts l, b_st (l_bnds l) with [], 3%Z => true | _, _ => bw_ok sc (scott_s2 s) nq12 0 hexp end) then
         verdict V_MISMATCH T_LAZY (-22) (D_HAFTER :: match sc with BwPow10 v => qdiag v | _ => [] end) else
       let heff := xfin_or0 hexp in
       let k := mkKde (l_xs l) ws kern heff b in
